@@ -92,3 +92,51 @@ Example C03_three_steps_then_done :
   [EvStep [0%Z] 0 (Ok VNone); EvStep [0%Z] 1 (Ok (VInt 5)); EvStep [0%Z] 2 (Ok (VInt 6)); EvDone [0%Z] (Ok (VInt 6))].
 Proof. exact (conj steps_demo_tree steps_demo_runs). Qed.
 Print Assumptions C03_three_steps_then_done.
+
+(* ==== tree programs WITH SYNCHRONOUS CALLS ([stree]: proofs/MachineC01S.v, proofs/MachineC02S.v) ==== *)
+From Asynq Require Import proofs.MachineC01S proofs.MachineC02S.
+
+Theorem C03_resumed_only_when_everything_awaited_is_done_stree : forall P, pointwise P -> forall p, stree p -> forall n t,
+  let h := fst (create [] (FTask p) (st0 P)) in
+  let s1 := snd (create [] (FTask p) (st0 P)) in
+  no_unwind P n (start h s1) -> c_mode (run P n (start h s1)) = MResume t ->
+  exists tk, get t (c_st (run P n (start h s1))) = Some (mkFut None (KTask tk)) /\
+    forall x, In (RFut x) (leaves (tk_last tk)) -> computed x (c_st (run P n (start h s1))) = true.
+Proof. exact resume_guard_stree. Qed.
+Print Assumptions C03_resumed_only_when_everything_awaited_is_done_stree.
+
+(* the guard hypothesis of C03_no_step_after_done_when_resumes_are_guarded holds for stree runs *)
+Theorem C03_stree_resumes_are_guarded : forall P p n,
+  pointwise P -> stree p ->
+  no_unwind P n (start (fst (create [] (FTask p) (st0 P))) (snd (create [] (FTask p) (st0 P)))) ->
+  resume_guarded P n (start (fst (create [] (FTask p) (st0 P))) (snd (create [] (FTask p) (st0 P)))).
+Proof. exact stree_resume_guarded. Qed.
+Print Assumptions C03_stree_resumes_are_guarded.
+
+Theorem C03_no_step_after_done_stree : forall P p n,
+  pointwise P -> stree p ->
+  no_unwind P n (start (fst (create [] (FTask p) (st0 P))) (snd (create [] (FTask p) (st0 P)))) ->
+  forall t i o l1 l2, snd (run_case P n [p]) = l1 ++ EvStep t i o :: l2 -> forall o', ~ In (EvDone t o') l1.
+Proof. exact stree_no_step_after_done. Qed.
+Print Assumptions C03_no_step_after_done_stree.
+
+(* a whole history of stree computations on one scheduler.  history_clean P fuel ps s: every program is stree, no
+   root computation unwinds, and every computation that is followed by another one finished (MDone) *)
+Theorem C03_no_step_after_done_stree_history : forall P fuel ps,
+  pointwise P -> history_clean P fuel ps (st0 P) ->
+  forall t i o l1 l2, snd (run_case P fuel ps) = l1 ++ EvStep t i o :: l2 -> forall o', ~ In (EvDone t o') l1.
+Proof. exact stree_history_no_step_after_done. Qed.
+Print Assumptions C03_no_step_after_done_stree_history.
+
+(* non-vacuity: the C02 demo program (a synchronous call inside an awaited task, failing siblings) twice on one
+   scheduler is a clean history; the second root [6] and its child [7] are stepped and then done *)
+Example C03_stree_clean_history :
+  let P := mkP [] 1000 false [] in
+  history_clean P 60 [c02s_demo; c02s_demo] (st0 P) /\
+  fst (run_case P 60 [c02s_demo; c02s_demo]) = [Some (Err 42); Some (Err 42)] /\
+  filter (fun e => match e with EvStep [6] _ _ | EvDone [6] _ | EvStep [7] _ _ | EvDone [7] _ => true | _ => false end)
+         (snd (run_case P 60 [c02s_demo; c02s_demo])) =
+  [EvStep [6] 0 (Ok VNone); EvStep [7] 0 (Ok VNone); EvDone [7] (Ok (VTuple [VInt 7; VInt 1]));
+   EvStep [6] 1 (Err 42); EvDone [6] (Err 42)].
+Proof. exact c02s_history_clean. Qed.
+Print Assumptions C03_stree_clean_history.
